@@ -39,6 +39,16 @@ from . import common, engine, wire
 from .common import Ctx, Failure, LeanStatus, Mismatch, Result
 from .gen import ops_gen, schema_gen
 
+import warnings
+
+
+
+def _quiet_fork_warning() -> None:
+    """ariadne_codegen/config.py switches DeprecationWarning to "default" at import; CPython 3.12 then prints one warning per
+    fork() of an engine.pmap_forked worker (its queue feeder thread).  Re-applied before every parallel section."""
+    warnings.filterwarnings("ignore", message=".*multi-threaded, use of fork.*", category=DeprecationWarning)
+
+
 PROP = "C19"
 TRIG_DEFAULT = "inputDefaultIntrospection"  # C19-F1  (Lean: trigDefaultLost)
 TRIG_TRANSPORT = "transportExc"  # C19-F2  (Lean: trigTransportExc)
@@ -1137,6 +1147,35 @@ def same_classes(impl: Dict[str, Any], model: Dict[str, Any]) -> bool:
     return True
 
 
+def mismatch_region(impl: Dict[str, Any], model: Dict[str, Any], defs: List[Dict[str, Any]]) -> Optional[str]:
+    """model and implementation differ: is every differing field inside a finding-trigger region (a field with an
+    effective default: C19-F1; a deprecated field that is present on one side only: C19-F4)?  Then the name of the region."""
+    if "error" in impl or "error" in model or impl["enums"].keys() != model["enums"].keys() or set(impl["classes"]) != set(model["classes"]):
+        return None
+    if not same_classes({"classes": {}, "enums": impl["enums"]}, {"classes": {}, "enums": model["enums"]}):
+        return None
+    by_name = {d["name"]: {f["name"]: f for f in d["fields"]} for d in defs if d["kind"] == "input"}
+    regions = set()
+    for cname, fs in impl["classes"].items():
+        a = {f["name"]: f for f in fs}
+        b = {f["name"]: f for f in model["classes"][cname]}
+        for fname in set(a) | set(b):
+            spec = by_name.get(cname, {}).get(fname)
+            if spec is None:
+                return None
+            if fname not in a or fname not in b:
+                if not spec["deprecated"]:
+                    return None
+                regions.add(TRIG_DEPRECATED)
+            elif a[fname]["ann"] != b[fname]["ann"]:
+                return None
+            elif not same_expr(a[fname]["default"], b[fname]["default"]):
+                if not effective_default(spec):
+                    return None
+                regions.add(TRIG_DEFAULT)
+    return sorted(regions)[0] if regions else None
+
+
 def judge_input_pair(sdl_c: Dict[str, Any], intro_c: Dict[str, Any], defs: List[Dict[str, Any]], inp: Any, res: Result) -> None:
     """the property on the generators' output: same enum classes, same input classes field by field; a difference is a
     known finding only on a field that satisfies the finding's trigger"""
@@ -1179,6 +1218,7 @@ def check_inputs(ctx: Ctx, st: Optional[LeanStatus], res: Result, n: int) -> Non
     chunk = 20
     chunks = [cases[i:i + chunk] for i in range(0, len(cases), chunk)]
     outs: List[Dict[str, Any]] = []
+    _quiet_fork_warning()
     for status, val in engine.pmap_forked(inputs_chunk, [(c,) for c in chunks], timeout=300):
         if status != "ok":
             raise common.Infra(f"inputs chunk failed: {status} {val}")
@@ -1209,9 +1249,842 @@ def check_inputs(ctx: Ctx, st: Optional[LeanStatus], res: Result, n: int) -> Non
             for j, mode in enumerate(("sdl", "intro")):
                 m = model[2 * i + j]
                 if not same_classes(o[mode], model_classes(m)):
-                    res.mismatches.append(Mismatch("inputs:" + mode, inp, o[mode], model_classes(m)))
+                    res.mismatches.append(Mismatch("inputs:" + mode, inp, o[mode], model_classes(m), trigger=mismatch_region(o[mode], model_classes(m), c["defs"])))
                 if m["trigDefaultLost"] != t1 or m["trigDeprecatedInput"] != trig_deprecated_input(c["defs"], m["inputValueDeprecation"]):
                     res.mismatches.append(Mismatch("triggers", inp, {"trigDefaultLost": t1, "deprecated": t4}, {k: m[k] for k in m if k.startswith("trig")}))
         judge_input_pair(o["sdl"], o["intro"], c["defs"], inp, res)
         if i < 1:
             res.sample({"observation": "inputs", "input": c["sdl"], "impl_sdl": o["sdl"], "impl_intro": o["intro"]})
+
+
+# --------------------------------------------------------------------------------------------
+# 5. oracle: one schema, three sources, three packages
+# --------------------------------------------------------------------------------------------
+
+DESCRIPTIONS = ["A thing.", "Multi\nline description", "with \"quotes\"", "ünïcode ✓", "# looks like a comment", "ends with backslash-free text"]
+
+
+def desc_sdl(d: Optional[str], indent: str = "") -> str:
+    if not d:
+        return ""
+    if "\n" in d:
+        return indent + '"""\n' + "\n".join(indent + l for l in d.split("\n")) + "\n" + indent + '"""\n'
+    return indent + json.dumps(d, ensure_ascii=False) + "\n"
+
+
+def decorate_schema(schema: Dict[str, Any], rng: random.Random, p_default: float, p_deprecated_input: float, p_desc: float) -> None:
+    """defaults of every kind, descriptions, deprecations on top of a schema_gen schema (in place)"""
+    g = InputSchemaGen(rng)
+    for t in schema["types"]:
+        if t["kind"] == "enum":
+            g.enums[t["name"]] = t["values"]
+        elif t["kind"] == "scalar":
+            g.scalars.append(t["name"])
+    inputs = [t for t in schema["types"] if t["kind"] == "input"]
+    for t in inputs:
+        g.inputs[t["name"]] = [{"name": f["name"], "type": f["type"], "default": None} for f in t["inputFields"]]
+    for ix, t in enumerate(inputs):
+        for f, gf in zip(t["inputFields"], g.inputs[t["name"]]):
+            f["default_lit"], f["deprecated"] = None, False
+            base = schema_gen.unwrap(f["type"])
+            if rng.random() < p_default:
+                lit = g.lit(f["type"], 0, True, ix)
+                if lit is not None:
+                    f["default_lit"] = lit
+                    f["default"] = lit_sdl(lit)
+                    gf["default"] = lit
+            if rng.random() < p_deprecated_input and (f["type"][0] != "nonnull" or f["default_lit"] is not None):
+                f["deprecated"] = True
+    for t in schema["types"]:
+        if rng.random() < p_desc:
+            t["description"] = rng.choice(DESCRIPTIONS)
+        t["deprecated_values"] = [v for v in t.get("values", []) if rng.random() < 0.1]
+        for f in t.get("fields", []):
+            if rng.random() < p_desc:
+                f["description"] = rng.choice(DESCRIPTIONS)
+            f["deprecated"] = rng.random() < 0.06
+            for a in f.get("args", []):
+                a["deprecated"] = rng.random() < p_deprecated_input and a["type"][0] != "nonnull"
+                if rng.random() < p_desc:
+                    a["description"] = rng.choice(DESCRIPTIONS)
+        for f in t.get("inputFields", []):
+            if rng.random() < p_desc:
+                f["description"] = rng.choice(DESCRIPTIONS)
+    # the same field name has the same arguments everywhere (schema_gen invariant): keep flags consistent per field name
+    seen: Dict[str, Any] = {}
+    for t in schema["types"]:
+        for f in t.get("fields", []):
+            if f["name"] in seen:
+                f["args"] = [dict(a) for a in seen[f["name"]]]
+            else:
+                seen[f["name"]] = f.get("args", [])
+
+
+def render_defs(schema: Dict[str, Any], descriptions: bool, rng: Optional[random.Random] = None) -> List[str]:
+    """one SDL string per definition (schema block, directive, every type; with rng: some types are cut into a
+    definition and an `extend`)"""
+    D = (lambda d, ind="": desc_sdl(d, ind)) if descriptions else (lambda d, ind="": "")  # noqa: E731
+    out: List[str] = []
+    roots = [("query", schema.get("query")), ("mutation", schema.get("mutation")), ("subscription", schema.get("subscription"))]
+    default = {"query": "Query", "mutation": "Mutation", "subscription": "Subscription"}
+    if any(v and v != default[k] for k, v in roots):
+        out.append("schema { " + " ".join(f"{k}: {v}" for k, v in roots if v) + " }")
+    for d in schema.get("directives", []):
+        out.append(d)
+    dep = ' @deprecated(reason: "old")'
+    for t in schema["types"]:
+        k = t["kind"]
+        head = D(t.get("description"))
+        if k == "scalar":
+            out.append(head + f"scalar {t['name']}")
+        elif k == "enum":
+            vals = [D(None) + v + (dep if v in t.get("deprecated_values", []) else "") for v in t["values"]]
+            out.append(head + f"enum {t['name']} {{\n  " + "\n  ".join(vals) + "\n}")
+        elif k == "union":
+            out.append(head + f"union {t['name']} = " + " | ".join(t["members"]))
+        elif k == "input":
+            fs = []
+            for f in t["inputFields"]:
+                dv = f" = {f['default']}" if f.get("default") is not None else ""
+                fs.append(D(f.get("description"), "  ") + f"  {f['name']}: {type_str(f['type'])}{dv}" + (dep if f.get("deprecated") else ""))
+            cut = rng.randint(1, len(fs) - 1) if (rng is not None and len(fs) > 1 and rng.random() < 0.2) else len(fs)
+            out.append(head + f"input {t['name']} {{\n" + "\n".join(fs[:cut]) + "\n}")
+            if cut < len(fs):
+                out.append(f"extend input {t['name']} {{\n" + "\n".join(fs[cut:]) + "\n}")
+        else:
+            kw = "type" if k == "object" else "interface"
+            impl = (" implements " + " & ".join(t["interfaces"])) if t["interfaces"] else ""
+            fs = []
+            for f in t["fields"]:
+                args = ""
+                if f.get("args"):
+                    parts = []
+                    for a in f["args"]:
+                        dv = f" = {a['default']}" if a.get("default") is not None else ""
+                        parts.append(f"{a['name']}: {type_str(a['type'])}{dv}" + (dep if a.get("deprecated") else ""))
+                    args = "(" + ", ".join(parts) + ")"
+                fs.append(D(f.get("description"), "  ") + f"  {f['name']}{args}: {type_str(f['type'])}" + (dep if f.get("deprecated") else ""))
+            cut = rng.randint(1, len(fs) - 1) if (rng is not None and len(fs) > 1 and k == "object" and rng.random() < 0.2) else len(fs)
+            out.append(head + f"{kw} {t['name']}{impl} {{\n" + "\n".join(fs[:cut]) + "\n}")
+            if cut < len(fs):
+                out.append(f"extend type {t['name']} {{\n" + "\n".join(fs[cut:]) + "\n}")
+    return out
+
+
+def split_defs(defs: List[str], rng: random.Random) -> Dict[str, str]:
+    """random partition of the definitions into files of nested directories (+ files that must be ignored)"""
+    order = list(defs)
+    rng.shuffle(order)
+    n_files = rng.randint(1, min(len(order), 7))
+    groups: List[List[str]] = [[] for _ in range(n_files)]
+    for i, d in enumerate(order):
+        groups[i if i < n_files else rng.randrange(n_files)].append(d)
+    dirs = ["", "", "types/", "types/inputs/", "a/b/c/", "Z/", "sub dir/", ".hidden/", "10/", "9/"]
+    files: Dict[str, str] = {}
+    for g in groups:
+        for _ in range(20):
+            rel = rng.choice(dirs) + rng.choice(FILE_STEMS) + rng.choice(EXTS_OK)
+            if not _path_conflict(rel, files):
+                break
+        files[rel] = rng.choice(["\n", "\n\n", "\n# ---\n"]).join(g) + rng.choice(["", "\n", "\n\n# end"])
+    for _ in range(rng.choice([0, 1, 2, 3])):
+        rel = rng.choice(dirs) + rng.choice(FILE_STEMS) + rng.choice(EXTS_IGNORED)
+        if not rel.endswith("/") and not _path_conflict(rel, files):
+            files[rel] = rng.choice(["type Broken {", "not graphql at all", "type Query { hijacked: Int }"])
+    return files
+
+
+def _path_conflict(rel: str, files: Dict[str, str]) -> bool:
+    return any(o == rel or o.startswith(rel + "/") or rel.startswith(o + "/") for o in files)
+
+
+def spec_defs(schema: Dict[str, Any]) -> List[Dict[str, Any]]:
+    """the input types of a schema_gen schema in the shape the trigger predicates read"""
+    return [{"kind": "input", "name": t["name"],
+             "fields": [{"name": f["name"], "type": f["type"], "default": f.get("default_lit"), "deprecated": bool(f.get("deprecated"))}
+                        for f in t["inputFields"]]}
+            for t in schema["types"] if t["kind"] == "input"]
+
+
+def gen_oracle_case(rng: random.Random, idx: int, focus: Optional[str] = None) -> Optional[Dict[str, Any]]:
+    from graphql import build_schema, parse, validate
+
+    schema = schema_gen.gen_schema(rng, size=rng.choice([1, 2, 2, 3]), subscription=rng.random() < 0.15,
+                                   custom_root_names=0.25)
+    p_default = {"defaults": 0.6, "clean": 0.0}.get(focus or "", rng.choice([0.0, 0.0, 0.25, 0.5]))
+    p_dep = {"deprecated": 0.25, "clean": 0.0}.get(focus or "", rng.choice([0.0, 0.0, 0.0, 0.08]))
+    decorate_schema(schema, rng, p_default, p_dep, p_desc=rng.choice([0.0, 0.3, 0.8]))
+    if rng.random() < 0.3:
+        schema["directives"] = ["directive @tag(name: String = \"x\", level: Int) on FIELD | QUERY | FRAGMENT_SPREAD"]
+    defs = render_defs(schema, True)
+    sdl = "\n\n".join(defs) + "\n"
+    sdl_plain = "\n\n".join(render_defs(schema, False)) + "\n"
+    try:
+        built = build_schema(sdl)
+        build_schema(sdl_plain)
+    except Exception as e:  # noqa: BLE001
+        raise common.Infra(f"schema generator produced an invalid schema: {e}\n{sdl}")
+    doc = ops_gen.gen_document(schema, rng, n_ops=rng.choice([1, 2, 3]),
+                               kinds=("query", "mutation", "subscription") if schema.get("subscription") else ("query", "mutation"))
+    if not doc["operations"]:
+        return None
+    queries = ops_gen.render_document(doc)
+    try:
+        if validate(built, parse(queries)):
+            return None
+    except Exception:  # noqa: BLE001  (graphql-core's subscription rule raises on @skip(if: $var) at the root)
+        return None
+    split_rng = random.Random(rng.random())
+    config: Dict[str, Any] = {}
+    if rng.random() < 0.3:
+        config["include_all_inputs"] = False
+        config["include_all_enums"] = False
+    if rng.random() < 0.25:
+        config["convert_to_snake_case"] = False
+    if rng.random() < 0.25:
+        config["async_client"] = False
+    if rng.random() < 0.2:
+        config["include_comments"] = "stable"
+    return {"idx": idx, "schema": schema, "sdl": sdl, "sdl_plain": sdl_plain, "queries": queries,
+            "split": split_defs(render_defs(schema, True, split_rng), split_rng), "config": config,
+            "intro_descriptions": rng.random() < 0.5}
+
+
+def normalise_literals(tree: ast.AST) -> ast.AST:
+    """`Literal["B", "A"]` and `Literal["A", "B"]` are the same type (the member order comes out of a Python set: C10's matter)"""
+    for node in ast.walk(tree):
+        if isinstance(node, ast.Subscript) and isinstance(node.value, ast.Name) and node.value.id == "Literal" and isinstance(node.slice, ast.Tuple):
+            node.slice.elts.sort(key=ast.dump)
+    return tree
+
+
+def canon_module(text: str) -> Dict[str, Any]:
+    tree = normalise_literals(ast.parse(text))
+    out: Dict[str, Any] = {"classes": {}, "functions": {}, "assigns": {}, "exprs": [], "imports": []}
+    for node in tree.body:  # type: ignore
+        if isinstance(node, ast.ClassDef):
+            out["classes"][node.name] = ast.unparse(node)
+        elif isinstance(node, (ast.FunctionDef, ast.AsyncFunctionDef)):
+            out["functions"][node.name] = ast.unparse(node)
+        elif isinstance(node, ast.Assign) and isinstance(node.targets[0], ast.Name):
+            if node.targets[0].id == "__all__" and isinstance(node.value, ast.List):
+                out["assigns"]["__all__"] = sorted(ast.unparse(e) for e in node.value.elts)
+            else:
+                out["assigns"][node.targets[0].id] = ast.unparse(node.value)
+        elif isinstance(node, ast.ImportFrom):
+            out["imports"] += [[node.level, node.module or "", a.name, a.asname or ""] for a in node.names]
+        elif isinstance(node, ast.Import):
+            out["imports"] += [[0, a.name, "", a.asname or ""] for a in node.names]
+        else:
+            out["exprs"].append(ast.unparse(node))
+    out["imports"].sort()
+    out["exprs"].sort()
+    return out
+
+
+def input_classes_of_text(text: str) -> Dict[str, Any]:
+    """input_types.py -> {class: [{name, gql, ann, default}]}; `gql` = the alias when the generator renamed the field"""
+    tree = ast.parse(text)
+    out: Dict[str, Any] = {}
+    for node in tree.body:
+        if not isinstance(node, ast.ClassDef):
+            continue
+        fields = []
+        for st_ in node.body:
+            if isinstance(st_, ast.AnnAssign) and isinstance(st_.target, ast.Name):
+                gql, value = st_.target.id, st_.value
+                if isinstance(value, ast.Call) and getattr(value.func, "id", "") == "Field":
+                    kws = {k.arg: k.value for k in value.keywords}
+                    if "alias" in kws and isinstance(kws["alias"], ast.Constant):
+                        gql = kws["alias"].value
+                        rest = [k for k in value.keywords if k.arg != "alias"]
+                        if not rest:
+                            value = None
+                        elif len(rest) == 1 and rest[0].arg == "default":
+                            value = rest[0].value
+                        else:
+                            value = ast.Call(func=value.func, args=[], keywords=rest)
+                fields.append({"name": gql, "py": st_.target.id, "ann": ast.unparse(st_.annotation), "default": expr_json(value)})
+        out[node.name] = fields
+    return out
+
+
+def _generate_source(root: Path, source: str, case: Dict[str, Any]) -> Dict[str, Any]:
+    """(forked) one REAL generation; returns the emitted files as text"""
+    cfg = dict(case["config"])
+    cfg["target_package_name"] = "pkg_" + source
+    sub = root / source
+    sub.mkdir()
+    if source == "file":
+        gen = engine.generate_client(sub, case["sdl"], case["queries"], cfg)
+    elif source == "split":
+        gen = engine.generate_client(sub, case["split"], case["queries"], cfg)
+    else:
+        cfg["remote_schema_url"] = "http://verif.test/graphql"
+        server_sdl = case["sdl"] if source == "intro_desc" else case["sdl_plain"]
+        with patched_httpx(graphql_server(server_sdl)):
+            gen = engine.generate_client(sub, None, case["queries"], cfg)
+    return {f.name: f.read_text() for f in sorted(gen.dir.glob("*.py"))}
+
+
+def _runtime_inputs(root: Path, source: str, module_name: str) -> Dict[str, Any]:
+    """(forked) import one generated package; per input model field: is_required() and the default value"""
+    import enum
+
+    from pydantic import BaseModel
+
+    sys.path.insert(0, str(root / source))
+    importlib.invalidate_caches()
+    pkg = "pkg_" + source
+    importlib.import_module(pkg)
+    for f in sorted((root / source / pkg).glob("*.py")):
+        if f.stem != "__init__":
+            importlib.import_module(f"{pkg}.{f.stem}")
+    mod = importlib.import_module(f"{pkg}.{module_name}")
+
+    def plain(v: Any) -> Any:
+        if isinstance(v, BaseModel):
+            return {"$model": type(v).__name__, "v": plain(v.model_dump(by_alias=True))}
+        if isinstance(v, enum.Enum):
+            return {"$enum": type(v).__name__, "v": v.value}
+        if isinstance(v, dict):
+            return {str(k): plain(x) for k, x in v.items()}
+        if isinstance(v, (list, tuple)):
+            return [plain(x) for x in v]
+        if v is None or isinstance(v, (bool, int, float, str)):
+            return v
+        return {"$repr": repr(v)[:120]}
+
+    out: Dict[str, Any] = {}
+    for name, obj in vars(mod).items():
+        if isinstance(obj, type) and issubclass(obj, BaseModel) and obj.__module__ == mod.__name__:
+            fields = {}
+            for fname, info in obj.model_fields.items():
+                entry: Dict[str, Any] = {"required": info.is_required()}
+                if not info.is_required():
+                    try:
+                        entry["default"] = plain(info.get_default(call_default_factory=True))
+                    except Exception as e:  # noqa: BLE001
+                        entry["default"] = {"$factory_raises": type(e).__name__}
+                fields[info.alias or fname] = entry
+            out[name] = fields
+    return out
+
+
+def _oracle_case(root: Path, case: Dict[str, Any], sources: List[str]) -> Dict[str, Any]:
+    """child: every generation and every import in its own forked grandchild"""
+    out: Dict[str, Any] = {"files": {}, "errors": {}, "runtime": {}}
+    input_mod = case["config"].get("input_types_module_name", "input_types")
+    for s in sources:
+        status, val = engine.forked(_generate_source, root, s, case, timeout=180)
+        if status == "ok":
+            out["files"][s] = val
+            st2, rt = engine.forked(_runtime_inputs, root, s, input_mod, timeout=120)
+            out["runtime"][s] = rt if st2 == "ok" else {"$import_error": f"{st2}: {rt[0] if rt else ''}: {rt[1][:200] if rt else ''}"}
+        elif status == "exc":
+            out["errors"][s] = {"cls": val[0], "msg": val[1][:400]}
+        else:
+            out["errors"][s] = {"cls": "timeout", "msg": ""}
+    return out
+
+
+oracle_case = engine.with_scratch(_oracle_case)
+
+
+def judge_packages(case: Dict[str, Any], obs: Dict[str, Any], sources: List[str], res: Result) -> None:
+    facts = facts_from_sdl(case["sdl"])  # the trigger predicates read the SDL text itself
+    defs = [d for d in facts["defs"] if d["kind"] == "input"]
+    base = "file"
+    inp_base = {"kind": "packages", "sdl": case["sdl"], "sdl_plain": case.get("sdl_plain", case["sdl"]), "queries": case["queries"],
+                "split": case["split"], "config": case["config"]}
+    dep_args = facts["dep_args"]
+    for other in sources:
+        if other == base:
+            continue
+        inp = {**inp_base, "pair": [base, other]}
+        is_intro = other.startswith("intro")
+        e1, e2 = obs["errors"].get(base), obs["errors"].get(other)
+        if e1 or e2:
+            if e1 and e2 and e1["cls"] == e2["cls"]:
+                res.count("oracle:both-sources-refuse:" + e1["cls"])
+                continue
+            trig = None
+            sig = "generation-fails-on-one-source"
+            if is_intro and e2 and not e1 and e2["cls"] == "InvalidOperationForSchema":
+                m = re.search(r"Unknown argument '(\w+)' on field '(\w+)\.(\w+)'", e2["msg"])
+                if m and (m.group(2), m.group(3), m.group(1)) in dep_args:
+                    trig, sig = TRIG_DEPRECATED, "operation-refused"
+                m = re.search(r"The directive '@(\w+)' can only be used once at this location", e2["msg"])
+                if m and m.group(1) in facts["repeatable"]:
+                    trig, sig = TRIG_REPEATABLE, "operation-refused"
+            res.failures.append(Failure(sig, trig, inp, f"{base}: {e1} / {other}: {e2}"[:400]))
+            continue
+        fa, fb = obs["files"][base], obs["files"][other]
+        if set(fa) != set(fb):
+            res.failures.append(Failure("file-set-differs", None, inp, f"{sorted(set(fa) ^ set(fb))}"))
+            continue
+        input_file = case["config"].get("input_types_module_name", "input_types") + ".py"
+        for fname in sorted(fa):
+            if fa[fname] == fb[fname]:
+                continue
+            ca, cb = canon_module(fa[fname]), canon_module(fb[fname])
+            if fname == input_file:
+                continue  # judged field by field below
+            for part in ("classes", "functions", "assigns", "exprs", "imports"):
+                if ca[part] != cb[part]:
+                    kind = {"enums.py": "enum-classes-differ", "client.py": "client-methods-differ"}.get(fname, "result-models-differ")
+                    detail = f"{fname}:{part}"
+                    names = _differing_names(ca[part], cb[part])
+                    detail += f" {sorted(names)[:4]}"
+                    if is_intro and names and names <= facts["dep_targets"] and fname in ("enums.py", "__init__.py"):
+                        # only whole classes that hang on a dropped deprecated input value are missing (C19-F4)
+                        res.failures.append(Failure("pruned-by-dropped-deprecated-field", TRIG_DEPRECATED, inp, detail))
+                        continue
+                    res.failures.append(Failure(kind, None, inp, detail))
+                    break
+        if input_file in fa:
+            ia, ib = input_classes_of_text(fa[input_file]), input_classes_of_text(fb[input_file])
+            n_before = len(res.failures)
+            odd = set(ia) ^ set(ib)
+            if is_intro and odd and odd <= facts["dep_targets"] and set(ib) <= set(ia):
+                res.failures.append(Failure("pruned-by-dropped-deprecated-field", TRIG_DEPRECATED, inp, f"{input_file}: {sorted(odd)} pruned"))
+                ia = {k: v for k, v in ia.items() if k in ib}
+            judge_input_pair({"classes": ia, "enums": {}}, {"classes": ib, "enums": {}}, defs, inp, res)
+            if not is_intro:  # two SDL sources: nothing is excused
+                for f in res.failures[n_before:]:
+                    f.trigger = None
+            ca, cb = canon_module(fa[input_file]), canon_module(fb[input_file])
+            if ca["exprs"] != cb["exprs"] and len(res.failures) == n_before:
+                res.failures.append(Failure("input-module-differs", None, inp, f"{ca['exprs']} vs {cb['exprs']}"[:300]))
+        # the imported models: which fields are required, and every default value
+        ra, rb = obs["runtime"].get(base, {}), obs["runtime"].get(other, {})
+        if "$import_error" in ra or "$import_error" in rb:
+            if ("$import_error" in ra) != ("$import_error" in rb):
+                res.failures.append(Failure("package-imports-on-one-source-only", None, inp, f"{ra.get('$import_error')} / {rb.get('$import_error')}"[:300]))
+            continue
+        by_name = {d["name"]: {f["name"]: f for f in d["fields"]} for d in defs}
+        for cname in sorted(set(ra) & set(rb)):
+            for fname in sorted(set(ra[cname]) & set(rb[cname])):
+                x, y = ra[cname][fname], rb[cname][fname]
+                if x == y:
+                    continue
+                spec = by_name.get(cname, {}).get(fname)
+                trig = TRIG_DEFAULT if (is_intro and spec is not None and effective_default(spec)) else None
+                sig = "required-flip" if x["required"] != y["required"] else "default-lost"
+                res.failures.append(Failure(sig, trig, inp, f"runtime {cname}.{fname}: {base} {json.dumps(x)[:90]} vs {other} {json.dumps(y)[:90]}"))
+        res.count("oracle:pairs-compared")
+
+
+def _differing_names(a: Any, b: Any) -> set:
+    """names of the classes / exports / imports on which two canonical module parts differ (empty = not name-shaped)"""
+    if isinstance(a, dict) and isinstance(b, dict):
+        out = set()
+        for k in set(a) | set(b):
+            if a.get(k) != b.get(k):
+                if k == "__all__" and isinstance(a.get(k), list) and isinstance(b.get(k), list):
+                    out |= {x.strip("'\"") for x in set(a[k]) ^ set(b[k])}
+                else:
+                    out.add(k)
+        return out
+    if isinstance(a, list) and isinstance(b, list) and all(isinstance(x, list) and len(x) == 4 for x in a + b):
+        ta, tb = {tuple(x) for x in a}, {tuple(x) for x in b}
+        return {x[2] for x in ta ^ tb}
+    return set()
+
+
+def run_oracle(ctx: Ctx, res: Result, n: int, label: str = "oracle", focus: Optional[str] = None) -> None:
+    rng = ctx.sub_rng(label)
+    cases: List[Dict[str, Any]] = []
+    attempts = 0
+    while len(cases) < n and attempts < 6 * n + 10:
+        attempts += 1
+        c = gen_oracle_case(rng, len(cases), focus)
+        if c is not None:
+            cases.append(c)
+    both_intro = ctx.thorough
+    jobs = []
+    for c in cases:
+        srcs = ["file", "split"] + (["intro_desc", "intro_plain"] if both_intro else ["intro_desc" if c["intro_descriptions"] else "intro_plain"])
+        jobs.append((c, srcs))
+    _quiet_fork_warning()
+    outs = engine.pmap_forked(oracle_case, jobs, timeout=600)
+    for (c, srcs), (status, obs) in zip(jobs, outs):
+        if status != "ok":
+            raise common.Infra(f"oracle case failed in the harness: {status} {obs}")
+        defs = spec_defs(c["schema"])
+        res.seen(["packages", c["sdl"], c["queries"], sorted(c["split"])], nontrivial=True)
+        res.count("oracle:cases")
+        res.count("oracle:in-F1-region" if trig_default_lost(defs) else "oracle:outside-F1-region")
+        res.count("oracle:split-files", len([k for k in c["split"] if PurePosixPath(k).suffix in EXTS_OK]))
+        for s in srcs:
+            res.count("oracle:generated:" + s if s in obs["files"] else "oracle:refused:" + s + ":" + obs["errors"].get(s, {}).get("cls", "?"))
+        judge_packages(c, obs, srcs, res)
+        if c["idx"] == 0:
+            res.sample({"observation": "packages", "sources": srcs, "files": sorted(obs["files"].get("file", {})), "split_files": sorted(c["split"])})
+
+
+# --------------------------------------------------------------------------------------------
+# 6. cheap property oracle for the file part: one file vs a split, through the REAL builder
+# --------------------------------------------------------------------------------------------
+
+
+def schema_print_map(sch: Any) -> Dict[str, str]:
+    from graphql import print_type
+    from graphql.utilities.print_schema import print_directive
+
+    out = {n: print_type(t) for n, t in sch.type_map.items() if not n.startswith("__")}
+    for d in sch.directives:
+        out["@" + d.name] = print_directive(d)
+    out["$roots"] = json.dumps([getattr(sch.query_type, "name", None), getattr(sch.mutation_type, "name", None),
+                                getattr(sch.subscription_type, "name", None)])
+    return out
+
+
+def check_split_schemas(ctx: Ctx, res: Result, n: int) -> None:
+    S = _schema_mod()
+    rng = ctx.sub_rng("split-schemas")
+    base = Path(tempfile.mkdtemp(prefix=engine.SCRATCH_PREFIX, dir=engine.scratch_root()))
+    try:
+        for i in range(n):
+            schema = schema_gen.gen_schema(rng, size=rng.choice([1, 2, 3]), subscription=rng.random() < 0.2, custom_root_names=0.3)
+            decorate_schema(schema, rng, rng.choice([0.0, 0.4]), rng.choice([0.0, 0.1]), rng.choice([0.0, 0.5, 1.0]))
+            single = "\n\n".join(render_defs(schema, True)) + "\n"
+            files = split_defs(render_defs(schema, True, rng), rng)
+            root = base / f"s{i}"
+            (root / "tree").mkdir(parents=True)
+            (root / "schema.graphql").write_text(single)
+            items = list(files.items())
+            rng.shuffle(items)
+            for rel, text in items:
+                p = root / "tree" / rel
+                p.parent.mkdir(parents=True, exist_ok=True)
+                p.write_text(text)
+            inp = {"kind": "split-schema", "sdl": single, "split": files}
+            try:
+                a = schema_print_map(S.get_graphql_schema_from_path(str(root / "schema.graphql")))
+                b = schema_print_map(S.get_graphql_schema_from_path(str(root / "tree")))
+            except (AttributeError, ImportError) as e:
+                res.mismatches.append(Mismatch("split-schema", inp, f"observer: {e!r}", None))
+                continue
+            except Exception as e:  # noqa: BLE001
+                res.failures.append(Failure("split-does-not-load", None, inp, f"{type(e).__name__}: {e}"[:300]))
+                continue
+            finally:
+                shutil.rmtree(root, ignore_errors=True)
+            res.seen(["split-schema", single, sorted(files)], nontrivial=len(files) > 1)
+            res.count("split-schema:cases")
+            if a != b:
+                diff = sorted(k for k in set(a) | set(b) if a.get(k) != b.get(k))
+                res.failures.append(Failure("split-changes-schema", None, inp, f"differs on {diff[:5]}"))
+    finally:
+        shutil.rmtree(base, ignore_errors=True)
+
+
+# --------------------------------------------------------------------------------------------
+# 7. replay of concrete inputs (finding witnesses, corpus, --replay)
+# --------------------------------------------------------------------------------------------
+
+
+def lit_of_ast(node: Any) -> Dict[str, Any]:
+    from graphql import (BooleanValueNode, EnumValueNode, FloatValueNode, IntValueNode, ListValueNode, NullValueNode,
+                         ObjectValueNode, StringValueNode)
+
+    if isinstance(node, IntValueNode):
+        return {"k": "int", "v": int(node.value)}
+    if isinstance(node, FloatValueNode):
+        return {"k": "float", "v": node.value}
+    if isinstance(node, StringValueNode):
+        return {"k": "str", "v": node.value}
+    if isinstance(node, BooleanValueNode):
+        return {"k": "bool", "v": bool(node.value)}
+    if isinstance(node, NullValueNode):
+        return {"k": "null"}
+    if isinstance(node, EnumValueNode):
+        return {"k": "enum", "v": node.value}
+    if isinstance(node, ListValueNode):
+        return {"k": "list", "v": [lit_of_ast(v) for v in node.values]}
+    if isinstance(node, ObjectValueNode):
+        return {"k": "obj", "v": [[f.name.value, lit_of_ast(f.value)] for f in node.fields]}
+    return {"k": "?"}
+
+
+def typeref_of_ast(node: Any) -> List[Any]:
+    from graphql import ListTypeNode, NonNullTypeNode
+
+    if isinstance(node, NonNullTypeNode):
+        return ["nonnull", typeref_of_ast(node.type)]
+    if isinstance(node, ListTypeNode):
+        return ["list", typeref_of_ast(node.type)]
+    return ["named", node.name.value]
+
+
+def facts_from_sdl(sdl: str) -> Dict[str, Any]:
+    """what the trigger predicates need, read from the SDL text itself (input fields with defaults / deprecation,
+    deprecated arguments, repeatable directives)"""
+    from graphql import (DirectiveDefinitionNode, EnumTypeDefinitionNode, InputObjectTypeDefinitionNode,
+                         InputObjectTypeExtensionNode, InterfaceTypeDefinitionNode, InterfaceTypeExtensionNode,
+                         ObjectTypeDefinitionNode, ObjectTypeExtensionNode, ScalarTypeDefinitionNode, parse)
+
+    doc = parse(sdl)
+    inputs: Dict[str, List[Dict[str, Any]]] = {}
+    defs: List[Dict[str, Any]] = []
+    dep_args = set()
+    dep_arg_types = set()
+    repeatable = set()
+    for d in doc.definitions:
+        if isinstance(d, (InputObjectTypeDefinitionNode, InputObjectTypeExtensionNode)):
+            fs = inputs.setdefault(d.name.value, [])
+            for f in d.fields or []:
+                fs.append({"name": f.name.value, "type": typeref_of_ast(f.type),
+                           "default": lit_of_ast(f.default_value) if f.default_value else None,
+                           "deprecated": any(x.name.value == "deprecated" for x in f.directives or [])})
+        elif isinstance(d, EnumTypeDefinitionNode):
+            defs.append({"kind": "enum", "name": d.name.value, "values": [v.name.value for v in d.values or []]})
+        elif isinstance(d, ScalarTypeDefinitionNode):
+            defs.append({"kind": "scalar", "name": d.name.value})
+        elif isinstance(d, (ObjectTypeDefinitionNode, ObjectTypeExtensionNode, InterfaceTypeDefinitionNode, InterfaceTypeExtensionNode)):
+            if isinstance(d, (ObjectTypeDefinitionNode, InterfaceTypeDefinitionNode)):
+                defs.append({"kind": "composite", "name": d.name.value})
+            for f in d.fields or []:
+                for a in f.arguments or []:
+                    if any(x.name.value == "deprecated" for x in a.directives or []):
+                        dep_args.add((d.name.value, f.name.value, a.name.value))
+                        dep_arg_types.add(schema_gen.unwrap(typeref_of_ast(a.type)))
+        elif isinstance(d, DirectiveDefinitionNode) and d.repeatable:
+            repeatable.add(d.name.value)
+        else:
+            name = getattr(getattr(d, "name", None), "value", None)
+            if name:
+                defs.append({"kind": "composite", "name": name})
+    defs += [{"kind": "input", "name": n, "fields": fs} for n, fs in inputs.items()]
+    # types that are reachable through a deprecated input field / argument (with include_all_inputs/enums = false the
+    # generator prunes what the operations do not reach, so dropping such a field can prune these types too)
+    todo = [schema_gen.unwrap(f["type"]) for fs in inputs.values() for f in fs if f["deprecated"]] + list(dep_arg_types)
+    dep_targets: set = set()
+    while todo:
+        n = todo.pop()
+        if n in dep_targets:
+            continue
+        dep_targets.add(n)
+        todo += [schema_gen.unwrap(f["type"]) for f in inputs.get(n, [])]
+    return {"defs": defs, "dep_args": dep_args, "repeatable": repeatable, "dep_targets": dep_targets}
+
+
+def replay_input(ctx: Ctx, inp: Dict[str, Any]) -> Result:
+    """run ONE concrete input against the real code; failures (with their trigger classification) in the result"""
+    res = Result()
+    kind = inp.get("kind")
+    if kind == "inputs":
+        defs = inp.get("defs") or facts_from_sdl(inp["sdl"])["defs"]
+        status, val = engine.forked(inputs_chunk, [{"sdl": inp["sdl"], "defs": defs}], timeout=120)
+        if status != "ok":
+            raise common.Infra(f"replay failed in the harness: {status} {val}")
+        o = val[0]
+        if "build_error" in o or "observer" in o:
+            raise common.Infra(f"replay input does not build: {o}")
+        judge_input_pair(o["sdl"], o["intro"], defs, inp, res)
+    elif kind == "remote":
+        content = inp["body_latin1"].encode("latin1")
+        impl = observe_remote(inp["status"], content, None)
+        ok, body = _decode(content)
+        fc = is_failure(inp["status"], ok, body)
+        if fc and impl["o"] == "other":
+            res.failures.append(Failure("untyped-builder-exception", TRIG_REJECTED if fc == "malformed-data" else None, inp,
+                                        f"{fc}: {impl['exc']} escapes instead of IntrospectionError"))
+        elif fc and impl["o"] == "schema":
+            res.failures.append(Failure("failed-introspection-accepted", None, inp, fc))
+        elif not fc and impl["o"] != "schema":
+            res.failures.append(Failure("valid-introspection-refused", None, inp, json.dumps(impl)[:200]))
+    elif kind == "remote-raised":
+        impl = observe_remote(None, None, inp["raised"])
+        if impl["o"] == "other":
+            res.failures.append(Failure("untyped-transport-exception", TRIG_TRANSPORT, inp, f"{impl['exc']} escapes instead of IntrospectionError"))
+    elif kind in ("remote-url", "remote-url-real"):
+        S = _schema_mod()
+        if kind == "remote-url":
+            impl = observe_remote(200, json.dumps({"data": valid_data()}).encode(), None, url=inp["url"])
+        else:
+            impl = classify_url_outcome(lambda: S.get_graphql_schema_from_url(inp["url"]))
+        if impl["o"] == "other":
+            res.failures.append(Failure("untyped-transport-exception", TRIG_TRANSPORT if kind == "remote-url-real" else None, inp,
+                                        f"{impl['exc']} escapes instead of IntrospectionError"))
+        elif impl["o"] == "schema":
+            res.failures.append(Failure("failed-introspection-accepted", None, inp, "a schema was returned"))
+    elif kind == "packages":
+        case = {"idx": -1, "sdl": inp["sdl"], "sdl_plain": inp.get("sdl_plain", inp["sdl"]), "queries": inp["queries"],
+                "split": inp.get("split") or {"schema.graphql": inp["sdl"]}, "config": inp.get("config", {})}
+        srcs = ["file", "split", "intro_desc"]
+        status, obs = engine.forked(oracle_case, case, srcs, timeout=600)
+        if status != "ok":
+            raise common.Infra(f"replay failed in the harness: {status} {obs}")
+        judge_packages(case, obs, srcs, res)
+    elif kind == "split-schema":
+        S = _schema_mod()
+        root = Path(tempfile.mkdtemp(prefix=engine.SCRATCH_PREFIX, dir=engine.scratch_root()))
+        try:
+            (root / "tree").mkdir()
+            (root / "schema.graphql").write_text(inp["sdl"])
+            for rel, text in inp["split"].items():
+                p = root / "tree" / rel
+                p.parent.mkdir(parents=True, exist_ok=True)
+                p.write_text(text)
+            try:
+                a = schema_print_map(S.get_graphql_schema_from_path(str(root / "schema.graphql")))
+                b = schema_print_map(S.get_graphql_schema_from_path(str(root / "tree")))
+                if a != b:
+                    res.failures.append(Failure("split-changes-schema", None, inp, str(sorted(k for k in set(a) | set(b) if a.get(k) != b.get(k))[:5])))
+            except Exception as e:  # noqa: BLE001
+                res.failures.append(Failure("split-does-not-load", None, inp, f"{type(e).__name__}: {e}"[:300]))
+        finally:
+            shutil.rmtree(root, ignore_errors=True)
+    elif kind == "source":
+        work = Path(tempfile.mkdtemp(prefix=engine.SCRATCH_PREFIX, dir=engine.scratch_root()))
+        try:
+            o = observe_source(inp, work)
+        finally:
+            shutil.rmtree(work, ignore_errors=True)
+        if o["o"] == "remote":
+            for (k, v), (_, sent) in zip(inp["headers"], o["headers"]):
+                if v.startswith("$$") or v == "$":
+                    continue
+                want = inp["env"].get(v[1:]) if v.startswith("$") else v
+                if sent != want:
+                    res.failures.append(Failure("header-not-sent-as-configured", None, inp, f"{k}: expected {want!r}, sent {sent!r}"))
+            want_verify = inp["verify"] if inp.get("verify_given", True) else True
+            if o["verify"] is not want_verify:
+                res.failures.append(Failure("verify-flag-not-sent", None, inp, f"configured {want_verify}, transport got {o['verify']!r}"))
+        print("observed:", json.dumps({k: v for k, v in o.items() if k != "query"}, default=repr)[:600])
+    elif kind == "suffix":
+        root = Path(tempfile.mkdtemp(prefix=engine.SCRATCH_PREFIX, dir=engine.scratch_root()))
+        try:
+            (root / inp["name"]).write_text("x")
+            got = bool(list(_schema_mod().walk_graphql_files(root)))
+        finally:
+            shutil.rmtree(root, ignore_errors=True)
+        want = any(inp["name"].endswith(e) and len(inp["name"]) > len(e) for e in (".graphql", ".graphqls", ".gql"))
+        if got != want:
+            res.failures.append(Failure("suffix-selection", None, inp, f"yields={got} documented={want}"))
+    else:
+        raise common.Infra(f"unknown replay input kind {kind!r}")
+    return res
+
+
+# --------------------------------------------------------------------------------------------
+# entry points
+# --------------------------------------------------------------------------------------------
+
+FINGERPRINT_ITEMS: List[Tuple[str, Optional[str]]] = [
+    ("ariadne_codegen/schema.py", "get_graphql_schema_from_url"),
+    ("ariadne_codegen/schema.py", "introspect_remote_schema"),
+    ("ariadne_codegen/schema.py", "get_graphql_schema_from_path"),
+    ("ariadne_codegen/schema.py", "load_graphql_files_from_path"),
+    ("ariadne_codegen/schema.py", "walk_graphql_files"),
+    ("ariadne_codegen/schema.py", "read_graphql_file"),
+    ("ariadne_codegen/settings.py", "BaseSettings.__post_init__"),
+    ("ariadne_codegen/settings.py", "resolve_headers"),
+    ("ariadne_codegen/settings.py", "get_header_value"),
+    ("ariadne_codegen/main.py", "client"),
+    ("ariadne_codegen/client_generators/input_fields.py", "parse_input_field_type"),
+    ("ariadne_codegen/client_generators/input_fields.py", "parse_input_field_default_value"),
+    ("ariadne_codegen/client_generators/input_fields.py", "parse_input_const_value_node"),
+    ("ariadne_codegen/client_generators/input_types.py", "InputTypesGenerator._parse_input_definition"),
+    ("ariadne_codegen/client_generators/enums.py", "EnumsGenerator._parse_enum_definition"),
+]
+
+
+def replay_corpus(ctx: Ctx, res: Result) -> None:
+    """finding witnesses (open and fixed) and every file of corpus/C19, replayed first"""
+    findings = common.load_findings(PROP)
+    for f in findings:
+        w = f.get("witness")
+        if not w:
+            continue
+        r = replay_input(ctx, w)
+        sigs = f["signature"] if isinstance(f["signature"], list) else [f["signature"]]
+        hit = [x for x in r.failures if x.trigger == f.get("trigger") and x.signature in sigs]
+        res.witness_status[f["id"]] = "reproduces" if hit else "gone"
+        if f.get("status") == "fixed":
+            for x in r.failures:  # a repaired defect that fails again is a violation
+                x.trigger = None
+        res.failures += r.failures
+        res.seen(["witness", f["id"]])
+    cdir = common.CORPUS / PROP
+    if cdir.is_dir():
+        for p in sorted(cdir.glob("*.json")):
+            payload = json.loads(p.read_text())
+            r = replay_input(ctx, payload["input"])
+            res.failures += r.failures
+            res.seen(["corpus", p.name])
+            res.count("corpus:files")
+
+
+def run(ctx: Ctx, st: Optional[LeanStatus]) -> Result:
+    res = Result()
+    res.rule = (
+        "correspondence: suffix table (fixed names + all names over {a . g q l} up to length 5/6), random directory trees on disk, "
+        "the complete introspection table (%d statuses x %d body classes + %d transport exceptions + unparseable URLs) plus random bodies, "
+        "random source configurations through the real main.client, random input-centric schemas through both real builders; "
+        "oracle: random schemas + operations generated from three (thorough: four) sources and compared package by package. "
+        "distinct = distinct inputs; non-trivial = a name with a dot, a tree loading > 1 definition, a table cell or a 2xx JSON object body, "
+        "a configuration with headers or a refusal, every schema" % (len(STATUSES), len(body_table()), len(RAISED))
+    )
+    fp = common.fingerprints(ctx, FINGERPRINT_ITEMS)
+    res.extra["fingerprints"] = fp
+    replay_corpus(ctx, res)
+    ctx.log(f"witnesses: {res.witness_status}")
+    res.witness_status.setdefault("C19-F2", "reproduces" if replay_unreachable(res) else "gone")
+    check_suffixes(ctx, st, res)
+    check_trees(ctx, st, res, ctx.budget(400, 6000))
+    check_remote(ctx, st, res)
+    check_sources(ctx, st, res, ctx.budget(200, 3000))
+    ctx.log(f"files/remote/settings correspondence done: {res.evaluations} evaluations, {len(res.mismatches)} mismatches")
+    check_inputs(ctx, st, res, ctx.budget(300, 6000))
+    check_split_schemas(ctx, res, ctx.budget(60, 800))
+    ctx.log(f"inputs correspondence + split oracle done: {res.evaluations} evaluations, {len(res.mismatches)} mismatches")
+    run_oracle(ctx, res, ctx.budget(30, 420))
+    res.exhaustive = False
+    res.extra["introspection_table_cells"] = len(STATUSES) * len(body_table())
+    res.oracle_only += [
+        "graphql-core's parse / build_ast_schema / build_client_schema / validate and its introspection executor are black boxes: "
+        "only when ariadne-codegen calls them and what it does with the outcome is modelled (Spec/BuildClientSchema covers the first two checks)",
+        "result models, client methods and operation strings across sources are compared by the package oracle only; the Lean side "
+        "contributes ast_uses_confined (no generator outside the input-default path reads a source-sensitive attribute)",
+        "finding C19-F5 (repeatable directives) and the deprecated-argument half of C19-F4 live in graphql-core's validation: witness replay only",
+        "httpx: URL parsing, what raises InvalidURL, redirects not followed by httpx.post - observed through a transport-level patch and the real transport",
+    ]
+    res.assumptions += [
+        "for individually parseable type-system documents, parse('\\n'.join(texts)).definitions is the concatenation of the parts' definitions (checked on every tree of this run)",
+        "Path.glob('**/*') yields every descendant exactly once, in an unspecified order (CPython 3.12 pathlib)",
+        "a spec-conformant endpoint answers the introspection query as graphql-core's executor does (deprecated input values only with includeDeprecated: true)",
+    ]
+    return res
+
+
+def search(ctx: Ctx) -> Result:
+    """after a broken proof / correspondence: judge the real code with the big budgets"""
+    res = Result()
+    check_remote(ctx, None, res)
+    check_sources(ctx, None, res, 3000)
+    check_suffixes(ctx, None, res)
+    check_inputs(ctx, None, res, 4000)
+    check_split_schemas(ctx, res, 600)
+    run_oracle(ctx, res, 200, label="search")
+    run_oracle(ctx, res, 60, label="search-clean", focus="clean")
+    return res
+
+
+def replay(ctx: Ctx, payload: Dict[str, Any]) -> int:
+    inp = payload.get("input")
+    if not inp:
+        print(json.dumps(payload, indent=1)[:3000])
+        return 1
+    res = replay_input(ctx, inp)
+    findings = common.load_findings(PROP)
+    rc = 0
+    for f in res.failures:
+        hit = common.match_finding(f, findings)
+        print(("KNOWN-FINDING " + hit["id"]) if hit else "FAILS", f.signature, f.trigger, "-", f.detail[:300])
+        rc = 1
+    if not res.failures:
+        print("ok: the property holds on this input")
+    return rc
